@@ -78,7 +78,7 @@ impl TableBuilder for TypeDeclaration {
                 global_table: Some(table),
                 local_table: None,
             };
-            let data_type = get_data_type(self.type_expr.as_mut(), Some(name), &lookup_table);
+            let data_type = get_data_type(self.type_expr.as_mut(), &name.value, &lookup_table);
             if table
                 .enter(
                     name.to_string(),
@@ -107,11 +107,11 @@ impl TableBuilder for ProcedureDeclaration {
             let parameters = self
                 .parameters
                 .iter_mut()
-                .filter_map(|param| build_parameter(param, table, &mut local_table))
+                .filter_map(|param| build_parameter(param, name, table, &mut local_table))
                 .collect();
             self.variable_declarations
                 .iter_mut()
-                .for_each(|dec| build_variable(dec, table, &mut local_table));
+                .for_each(|dec| build_variable(dec, name, table, &mut local_table));
             let entry = ProcedureEntry {
                 name: name.clone(),
                 local_table,
@@ -132,6 +132,7 @@ impl TableBuilder for ProcedureDeclaration {
 
 fn build_parameter(
     param: &mut Reference<ParameterDeclaration>,
+    procedure: &Identifier,
     global_table: &GlobalTable,
     local_table: &mut LocalTable,
 ) -> Option<VariableEntry> {
@@ -150,7 +151,11 @@ fn build_parameter(
                 global_table: Some(global_table),
                 local_table: None,
             };
-            let data_type = get_data_type(type_expr.as_mut(), Some(name), &lookup_table);
+            let data_type = get_data_type(
+                type_expr.as_mut(),
+                &anonymous_type_creator(procedure, name),
+                &lookup_table,
+            );
             let param_entry = VariableEntry {
                 name: name.clone(),
                 is_ref: *is_ref,
@@ -180,6 +185,7 @@ fn build_parameter(
 
 fn build_variable(
     var: &mut Reference<VariableDeclaration>,
+    procedure: &Identifier,
     global_table: &GlobalTable,
     local_table: &mut LocalTable,
 ) {
@@ -197,7 +203,7 @@ fn build_variable(
             is_ref: false,
             data_type: get_data_type(
                 type_expr.as_mut(),
-                Some(name),
+                &anonymous_type_creator(procedure, name),
                 &LookupTable {
                     global_table: Some(global_table),
                     local_table: Some(local_table),
@@ -216,9 +222,17 @@ fn build_variable(
     }
 }
 
+/// Every array type expression creates a new type (name equivalence).
+/// The anonymous array type of a parameter or variable is therefore identified
+/// by the procedure and the name it is declared for,
+/// which no type declaration and no other parameter or variable can share.
+fn anonymous_type_creator(procedure: &Identifier, name: &Identifier) -> String {
+    format!("{}::{}", procedure, name)
+}
+
 fn get_data_type(
     type_expr: Option<&mut Reference<TypeExpression>>,
-    caller: Option<&Identifier>,
+    creator: &str,
     table: &LookupTable,
 ) -> Option<DataType> {
     type_expr.and_then(|type_expr| {
@@ -230,11 +244,11 @@ fn get_data_type(
                 let size = size.as_ref().and_then(|int_lit| int_lit.value);
                 let base_type = get_data_type(
                     base_type.as_mut().map(|boxed| boxed.as_mut()),
-                    caller,
+                    creator,
                     table,
                 )
                 .map(Box::new);
-                caller.map(|creator| DataType::Array {
+                Some(DataType::Array {
                     size,
                     base_type,
                     creator: creator.to_string(),
